@@ -100,6 +100,7 @@ class Check(DiffCheck):
         if os.path.exists(cp):
             cs += [l.strip() for l in open(cp) if l.strip() and not l.startswith('#')]
         cs += self.gen_D(tier, rng)
+        cs += self.gen_E(tier, rng)
         return list(dict.fromkeys(cs))
 
     def gen_D(self, tier, rng):
@@ -184,6 +185,79 @@ class Check(DiffCheck):
             cs.append(dcase(op, tmo, rng.choice([0, 0, 2, 64]) if op in ONCEOPS else 0, lens, sys, wt))
         return cs
 
+
+    # ------------------------------------------------------------------ part 2: engine scripts
+    MASKS = [0, 1, 4, 5, 8, 16, 8192, 1 | 16, 4 | 8, 1 | 8192, 1 | 4 | 8 | 16]
+
+    def gen_E(self, tier, rng):
+        cs = []
+        # hand-made families: the MOD-after-one-shot case in every order, both directions of one fd
+        for d1, d2 in ((1, 2), (2, 1), (1, 4), (4, 2)):
+            for m in (1, 4, 5, 8, 16, 8192):
+                cs.append('E w1:5:%d:inf,w2:5:%d:inf,r5:%d,p,r5:%d,p,r5:13,p' % (d1, d2, m, m ^ 5))
+                cs.append('E w1:5:%d:7,w2:5:%d:inf,t10,r5:%d,p,r5:5,p' % (d1, d2, m))
+                cs.append('E w1:5:%d:inf,w2:5:%d:9,r5:%d,p,t10,r5:5,p,p' % (d1, d2, m))
+                cs.append('E w1:5:%d:inf,w2:5:%d:inf,i1:4,r5:%d,p,w3:5:%d:inf,r5:0,p,r5:5,p' % (d1, d2, m, d1))
+                cs.append('E w1:5:%d:5,t6,r5:%d,p,w2:5:%d:inf,p,w3:5:%d:inf,p,r5:0,p' % (d1, m, d2, d1))
+        # the 16-event batch: more ready descriptors than one epoll_wait returns
+        for n in (15, 16, 17, 20, 33):
+            st = ['w%d:%d:%d:inf' % (i + 1, 10 + i, 1 + (i % 2)) for i in range(n)]
+            st += ['r%d:5' % (10 + i) for i in range(n)]
+            cs.append('E ' + ','.join(st + ['p', 'p', 'p']))
+            cs.append('E ' + ','.join(st + ['k', 'p', 'i1:4', 'p', 'p']))
+        nrand = 700 if tier == 'quick' else 20000
+        for _ in range(nrand):
+            cs.append(self.rand_EM(rng))
+        for _ in range(nrand // 3):
+            cs.append(self.rand_EC(rng))
+        return cs
+
+    def rand_EM(self, rng):
+        fds = rng.sample(range(3, 12), rng.randrange(1, 4))
+        now = 1000; used = set(); nt = 0; waiting = {}
+        steps = []
+        for _ in range(rng.randrange(3, 26)):
+            x = rng.random()
+            if x < 0.30 and nt < 9:
+                nt += 1
+                fd = rng.choice(fds); d = rng.choice([1, 1, 2, 2, 4])
+                y = rng.random()
+                if y < 0.04: d = rng.choice([0, 3, 6])
+                if y > 0.98: fd = -1
+                if rng.random() < 0.45: tmo = 'inf'
+                else:
+                    tmo = rng.choice([0, 1, 3, 5, 7, 9, 11, 21, 35])
+                    while tmo and (now + tmo) in used: tmo += 2
+                    if tmo: used.add(now + tmo)
+                steps.append('w%d:%d:%d:%s' % (nt, fd, d, tmo)); waiting[nt] = 1
+            elif x < 0.55:
+                steps.append('r%d:%d' % (rng.choice(fds), rng.choice(self.MASKS)))
+            elif x < 0.78: steps.append('p')
+            elif x < 0.84 and nt:
+                steps.append('i%d:%d' % (rng.randrange(1, nt + 1), rng.choice([4, 125, 110, 11])))
+            elif x < 0.94:
+                d = rng.choice([2, 4, 6, 10, 20, 40]); now += d; steps.append('t%d' % d)
+            elif x < 0.97: steps.append('k')
+            else: steps.append('x%d' % rng.choice(fds))
+        return 'E ' + ','.join(steps)
+
+    def rand_EC(self, rng):
+        fds = rng.sample(range(3, 30), rng.randrange(1, 9))
+        steps = []
+        oneshot = 32768 if rng.random() < 0.3 else 0
+        for _ in range(rng.randrange(3, 24)):
+            x = rng.random()
+            if x < 0.3:
+                steps.append('a%d:%d:%d' % (rng.choice(fds), rng.choice([1, 2, 3, 4, 1, 2, 7]) | oneshot, rng.choice([2001, 2002, 2003, 2004])))
+            elif x < 0.4:
+                steps.append('d%d:%d:%d' % (rng.choice(fds), rng.choice([1, 2, 3, 4, 7]) | rng.choice([0, oneshot]), 0))
+            elif x < 0.7:
+                steps.append('r%d:%d' % (rng.choice(fds), rng.choice(self.MASKS)))
+            elif x < 0.97:
+                steps.append('c%d:%d' % (rng.choice([0, 2, 3, 4, 6, 16, 48, 64]), rng.choice([2, 10])))
+            else: steps.append('x%d' % rng.choice(fds))
+        return 'E ' + ','.join(steps)
+
     # ------------------------------------------------------------------ parsing
     def _parse_D(self, case):
         f = case.split(' ')
@@ -222,6 +296,7 @@ class Check(DiffCheck):
     def oracle(self, case, out):
         if out.startswith('CRASH'): return 'implementation crashed: ' + out
         if case[0] == 'D': return self.oracle_D(case, out)
+        if case[0] == 'E': return self.oracle_E(case, out)
         return None
 
     def oracle_D(self, case, out):
@@ -328,6 +403,153 @@ class Check(DiffCheck):
         if ret != r: return 'recv/send returned %d, kernel moved %d' % (ret, r)
         if ret > total: return 'recv/send returned more than requested'
         if nsys_ok != 1: return 'recv/send made %d successful syscalls' % nsys_ok
+        return None
+
+
+    # part 2: a specification-level reference of "who must wake with what", evaluated on the implementation's log,
+    # plus the kernel arming reconstructed from the logged epoll_ctl / epoll_wait calls
+    RB, WB, EB = 8217, 28, 8
+    def oracle_E(self, case, out):
+        if out.startswith('HARNESS-BAD'): return 'harness invariant broken: ' + out[:200]
+        m = re.match(r'log=(\S*) tab=(\S*) size=(\d+) kern=(\S*) batch=(\S*) blocked=(\S*) now=(\d+)$', out)
+        if not m: return 'unparsable output: %r' % out[:200]
+        steps = case.split(' ')[1].split(',')
+        chunks = m.group(1).split('|')
+        init, chunks = chunks[0], chunks[1:]
+        if len(chunks) != len(steps): return 'log has %d step sections for %d steps' % (len(chunks), len(steps))
+        dirbits = {1: self.RB, 2: self.WB, 4: self.EB}
+        evbits = {1: 1 | 8192, 2: 4, 4: 8}
+        now = 1000
+        ready = {}            # fd -> mask
+        wait = {}             # t -> dict(fd, d, dl, orphan)
+        kern = {}             # fd -> [events, armed]   reconstructed from the log
+        reg = {}              # cascading: (fd, bit) -> data
+        seen = set()
+        def apply_kernel(ev):
+            if ev.startswith('C'):
+                head, res = ev[1:].split('='); op, fd, e = [int(x) for x in head.split(',')]
+                if int(res) == 0:
+                    if op in (1, 3): kern[fd] = [e, True]
+                    elif op == 2: kern.pop(fd, None)
+            elif ev.startswith('P['):
+                for it in ev[2:-1].split(','):
+                    if it:
+                        fd, e = [int(x) for x in it.split(':')]
+                        if fd in kern and (kern[fd][0] & ((1 << 30) | (1 << 31))): kern[fd][1] = False
+        for ev in [e for e in init.split(';') if e]: apply_kernel(ev)
+        for tok, chunk in zip(steps, chunks):
+            evs = [e for e in chunk.split(';') if e]
+            res = {}
+            reported = {}
+            for ev in evs:
+                apply_kernel(ev)
+                if ev[0] == 'T':
+                    t, r = ev[1:].split('='); ret, err = r.split('/')
+                    if int(t) in res: return 'thread %s returned twice' % t
+                    res[int(t)] = (int(ret), int(err))
+                elif ev.startswith('P['):
+                    for it in ev[2:-1].split(','):
+                        if it:
+                            fd, e = [int(x) for x in it.split(':')]; reported[fd] = reported.get(fd, 0) | e
+            c = tok[0]; a = tok[1:].split(':') if len(tok) > 1 else []
+            A = lambda i: -1 if a[i] == 'inf' else int(a[i])
+            expect = {}           # t -> (ret, errno) that MUST be returned in this step
+            may = {}              # t -> allowed alternative
+            if c == 'w':
+                t, fd, d, tmo = A(0), A(1), A(2), A(3)
+                seen.add(t)
+                if fd < 0 or (d & (d - 1)): expect[t] = (-1, 22)
+                elif d == 0:
+                    if t not in res: return 'wait_for_fd(fd, 0) did not return'
+                    for w in wait.values():
+                        if w['fd'] == fd: w['orphan'] = True
+                    expect[t] = res[t]
+                elif any(w['fd'] == fd and w['d'] == d and not w['orphan'] for w in wait.values()):
+                    expect[t] = (-1, 114)
+                elif any(w['fd'] == fd and w['d'] == d for w in wait.values()):
+                    expect[t] = res.get(t, (-1, 114))     # same slot as an orphaned waiter: either outcome is acceptable
+                    if t not in res: wait[t] = dict(fd=fd, d=d, dl=None if tmo < 0 else now + tmo, orphan=True)
+                elif tmo == 0: expect[t] = (-1, 110)
+                else: wait[t] = dict(fd=fd, d=d, dl=None if tmo < 0 else now + tmo, orphan=False)
+            elif c == 'r': ready[A(0)] = A(1)
+            elif c == 'x':
+                fd = A(0); ready[fd] = 0; kern.pop(fd, None)
+                for w in wait.values():
+                    if w['fd'] == fd: w['orphan'] = True
+            elif c == 'p':
+                should = [t for t, w in wait.items() if not w['orphan'] and (ready.get(w['fd'], 0) & dirbits[w['d']])]
+                nfd = len(set(wait[t]['fd'] for t in should))
+                for t, (ret, err) in res.items():
+                    if ret == 0:
+                        w = wait.get(t)
+                        if w is None: return 'thread %d woken but it was not waiting' % t
+                        if not (reported.get(w['fd'], 0) & dirbits[w['d']]):
+                            return 'thread %d (fd %d dir %d) woken by an event that is not for its descriptor/direction (kernel reported %s)' % (t, w['fd'], w['d'], reported)
+                        if not (ready.get(w['fd'], 0) & dirbits[w['d']]) and not w['orphan']:
+                            return 'thread %d woken although its descriptor is not ready in its direction' % t
+                if nfd <= 15:
+                    for t in should: expect[t] = (0, 0)
+                else:
+                    if not any(t in res for t in should): return 'no waiter woken although %d descriptors are ready' % nfd
+                for t in list(res):
+                    if res[t][0] == 0 and t in wait and t not in expect: expect[t] = (0, 0)   # orphan woken legitimately (checked above)
+            elif c == 'i':
+                t, e = A(0), A(1)
+                if t in wait: expect[t] = (-1, e)
+            elif c == 't':
+                now += A(0)
+                for t, w in wait.items():
+                    if w['dl'] is not None and w['dl'] <= now: expect[t] = (-1, 110)
+            elif c in 'adc':
+                r = self._oracle_EC_step(c, a, evs, ready, reg, kern)
+                if r: return r
+            if c in 'wpitkxr':
+                for t, e in expect.items():
+                    if t not in res: return 'step %s: thread %d should have returned %s but stays blocked (lost event/timeout)' % (tok, t, e)
+                    if res[t] != e: return 'step %s: thread %d returned %s, expected %s' % (tok, t, res[t], e)
+                for t in res:
+                    if t not in expect: return 'step %s: thread %d returned %s although nothing happened for it (cross-talk)' % (tok, t, res[t])
+                for t in res: wait.pop(t, None)
+                # engine_kernel_agree / no_cross_talk: every remaining (non-orphan) waiter is armed in the kernel
+                for t, w in wait.items():
+                    if w['orphan']: continue
+                    k = kern.get(w['fd'])
+                    if k is None or not k[1] or (k[0] & evbits[w['d']]) != evbits[w['d']] or not (k[0] & (1 << 30)):
+                        return 'after step %s: thread %d waits for fd %d dir %d but the kernel entry is %s (not armed for it)' % (tok, t, w['fd'], w['d'], k)
+        blocked = sorted(int(x) for x in m.group(6).split(',') if x)
+        if blocked != sorted(wait): return 'threads blocked at the end %s, expected %s' % (blocked, sorted(wait))
+        if int(m.group(7)) != now: return 'virtual clock ended at %s, expected %d' % (m.group(7), now)
+        if any(c[0] in 'wpit' for c in steps) and m.group(5): return '_events_remain not drained by wait_and_fire_events'
+        return None
+
+    def _oracle_EC_step(self, c, a, evs, ready, reg, kern):
+        A = lambda i: int(a[i])
+        dirbits = {1: self.RB, 2: self.WB, 4: self.EB}
+        call = [e for e in evs if e[0] in 'ADV']
+        if len(call) != 1: return 'cascading call did not return exactly once'
+        call = call[0]
+        if c == 'a':
+            if call == 'A=0':
+                for b in (1, 2, 4):
+                    if A(1) & b: reg[(A(0), b)] = (A(2), bool(A(1) & 32768))
+        elif c == 'd':
+            if call == 'D=0':
+                for b in (1, 2, 4):
+                    if A(1) & b: reg.pop((A(0), b), None)
+        else:
+            mm = re.match(r'V=(-?\d+)\[(.*)\]$', call)
+            n = int(mm.group(1)); out = [int(x) for x in mm.group(2).split(',') if x]
+            if n != len(out): return 'wait_for_events returned %d but wrote %d data' % (n, len(out))
+            if n > A(0): return 'wait_for_events wrote %d data into %d slots' % (n, A(0))
+            allowed = [d for (fd, b), (d, os) in reg.items() if ready.get(fd, 0) & dirbits[b]]
+            for d in out:
+                if d not in allowed: return 'wait_for_events delivered data %d which has no ready registered interest' % d
+            # one-shot interests are consumed by delivery
+            cnt = {}
+            for d in out: cnt[d] = cnt.get(d, 0) + 1
+            for (fd, b), (d, os) in list(reg.items()):
+                if os and (ready.get(fd, 0) & dirbits[b]) and cnt.get(d, 0) > 0:
+                    cnt[d] -= 1; reg.pop((fd, b))
         return None
 
     def neighbours(self, case, rng):
